@@ -834,13 +834,49 @@ func (c *Ctx) entryGuarded(f *ssa.Function, inSCC map[*ssa.Function]bool) bool {
 			return true
 		}
 		if !cf.MustAt(call, gen, nil, nil) || gm == nil {
-			return false
+			// the lookup may have been made by the callers (directly, or by a helper whose
+			// summary says so) while this function only sets and holds the mark
+			if m, k, ok := c.callersLookedUpMark(pk, decl, cf, call, params); ok {
+				gm, gk = m, k
+			} else {
+				return false
+			}
 		}
 		if !markHeldAt(info, cf, call, gm, gk) {
 			return false
 		}
 	}
 	return true
+}
+
+// callersLookedUpMark: before `call`, the function stores M[p] for one of its parameters p
+// (the mark), and every static caller of the function reaches its call only after a lookup
+// (not found) of the corresponding argument in the same map.
+func (c *Ctx) callersLookedUpMark(pk *pkgT, decl *ast.FuncDecl, cf *cfgx.Func, call *ast.CallExpr, params map[types.Object]bool) (ast.Expr, ast.Expr, bool) {
+	info := pk.TypesInfo
+	var ix *ast.IndexExpr
+	cf.Before(call, func(nd ast.Node) {
+		as, ok := nd.(*ast.AssignStmt)
+		if !ok || len(as.Lhs) != 1 {
+			return
+		}
+		if x, ok := ast.Unparen(as.Lhs[0]).(*ast.IndexExpr); ok {
+			if t := info.TypeOf(x.X); t != nil {
+				if _, isMap := t.Underlying().(*types.Map); isMap {
+					if id, isId := ast.Unparen(x.Index).(*ast.Ident); isId && params[info.ObjectOf(id)] {
+						ix = x
+					}
+				}
+			}
+		}
+	})
+	if ix == nil {
+		return nil, nil, false
+	}
+	if _, ok := c.h1CallersLookedUp(pk, decl, ix); !ok {
+		return nil, nil, false
+	}
+	return ix.X, ix.Index, true
 }
 
 // ---------------------------------------------------------------- T1: loops
